@@ -50,4 +50,13 @@ theorem gen_chunkstorage_shape :
     Gen.site_shape_chunkstorage_StoreChunk_found = true ∧
     Gen.chunkStorageShape = ["markProcessed", "HasChunk", "unmarkProcessed", "StoreChunk"] := by decide
 
+/-- regenerated obligations about the workers: `readChunkFromFile` checks the bytes it re-read from
+    the file against the index ID (`NewChunkWithID(c.ID, b, false)`), and in the workers of `Copy`
+    and `ChopFile` every call that can fail is directly followed by `if err != nil { return err }`
+    — the error of a job is the worker's result, which is what the pool machine's `fail` event models -/
+theorem gen_workers :
+    Gen.chopRereadVerified = true ∧
+    Gen.workerCopyCalls = ["HasChunk", "GetChunk", "StoreChunk"] ∧ Gen.workerCopyReturnsEveryError = true ∧
+    Gen.workerChopFileCalls = ["readChunkFromFile", "StoreChunk"] ∧ Gen.workerChopFileReturnsEveryError = true := by decide
+
 end Desync.C06
